@@ -85,7 +85,7 @@ replay_proof! {
         match open(replay_config(None)) {
             Some(rl) => {
                 assert_matches(&rl, &m);
-                assert_read(&rl, &m, 0, 255);
+                assert_cached(&rl, &m);
                 assert!(rl.wal.closed.len() == 0, "a healthy last chunk is reopened for appending");
                 assert!(rl.wal.open.chunk.global_end() == end as u64, "journal does not continue at the end of the reopened chunk");
                 assert!(untouched(0, end), "clean image modified by open");
@@ -97,45 +97,48 @@ replay_proof! {
     }
 }
 
-// one chunk with truncation and re-append at the same index (any term above
-// the kept entry, in particular lower than the removed one):
-// [State(empty), Append a0 (n=0), Append a1 (n=2), TruncateAfter(a0), Append b1 (n=1)]
-// @harness name=c02_one_chunk_truncate prop=C02 tier=quick timeout=1200 fs=512
-replay_proof! {
-    unwind = 10, crc = off,
-    fn c02_one_chunk_truncate() {
-        let mut m = empty_model();
-        let mut im = Img::new(0, 0);
-        im.state(None, None, None, None, None);
-        let a0 = any_id();
-        let p0 = P::new(0, 0);
-        im.append(a0, p0);
-        m.do_append(a0, p0);
-        let a1 = any_id();
-        kani::assume(m.append_ok(a1));
-        let p1 = P::new(2, kani::any());
-        im.append(a1, p1);
-        m.do_append(a1, p1);
-        im.truncate_after(Some(a0));
-        m.do_truncate(Some(a0));
-        let b1 = any_id();
+// one chunk with a truncation, optionally followed by a re-append at the same
+// index (any term above the kept entry, in particular lower than the removed one):
+// [State(empty), Append a0 (n=0), Append a1 (n=2), TruncateAfter(a0) [, Append b1 (n=1)]]
+fn one_chunk_truncate(reappend: bool) {
+    let mut m = empty_model();
+    let mut im = Img::new(0, 0);
+    im.state(None, None, None, None, None);
+    let a0 = any_id();
+    let p0 = P::new(0, 0);
+    im.append(a0, p0);
+    m.do_append(a0, p0);
+    let a1 = any_id();
+    kani::assume(m.append_ok(a1));
+    let p1 = P::new(2, kani::any());
+    im.append(a1, p1);
+    m.do_append(a1, p1);
+    im.truncate_after(Some(a0));
+    m.do_truncate(Some(a0));
+    let b1 = any_id();
+    if reappend {
         kani::assume(m.append_ok(b1));
         let q1 = P::new(1, kani::any());
         im.append(b1, q1);
         m.do_append(b1, q1);
-        let end = im.commit_len();
-        match open(replay_config(None)) {
-            Some(rl) => {
-                assert_matches(&rl, &m);
-                assert_cached(&rl, &m);
-                assert!(untouched(0, end), "clean image modified by open");
-                kani::cover!(b1.0 < a1.0, "re-appended entry has a lower term than the truncated one");
-                core::mem::forget(rl);
-            }
-            None => assert!(false, "open of a cleanly written directory failed"),
+    }
+    let end = im.commit_len();
+    match open(replay_config(None)) {
+        Some(rl) => {
+            assert_matches(&rl, &m);
+            assert_cached(&rl, &m);
+            assert!(untouched(0, end), "clean image modified by open");
+            kani::cover!(!reappend || b1.0 < a1.0, "truncated; a re-appended entry may have a lower term than the removed one");
+            core::mem::forget(rl);
         }
+        None => assert!(false, "open of a cleanly written directory failed"),
     }
 }
+
+// @harness name=c02_one_chunk_truncate prop=C02 tier=quick timeout=1200 fs=512
+replay_proof! { unwind = 10, crc = off, fn c02_one_chunk_truncate() { one_chunk_truncate(false); } }
+// @harness name=c02_one_chunk_truncate_reappend prop=C02 tier=thorough timeout=2400 fs=512
+replay_proof! { unwind = 10, crc = off, fn c02_one_chunk_truncate_reappend() { one_chunk_truncate(true); } }
 
 // [State(empty), Append a0 (n=1), Append a1 (n=0), Purge(a0)]
 // @harness name=c02_one_chunk_purge prop=C02 tier=quick timeout=1200 fs=512
@@ -195,7 +198,7 @@ replay_proof! {
         match open(replay_config(None)) {
             Some(rl) => {
                 assert_matches(&rl, &m);
-                assert_read(&rl, &m, 0, 255);
+                assert_cached(&rl, &m);
                 assert!(rl.wal.open.chunk.global_start() == base && rl.wal.open.chunk.global_end() == base + end as u64);
                 assert!(untouched(0, end));
                 kani::cover!(true, "reopened from a state snapshot");
